@@ -2,6 +2,7 @@
 C12 — the flow split conserves mass and equalises subchannel pressure gradients.
 -/
 import Dassh.Gen.C12
+import Dassh.Model.FlowSplit
 import Mathlib.Algebra.Order.Field.Basic
 import Mathlib.Analysis.SpecialFunctions.Pow.Real
 import Mathlib.Analysis.Real.Sqrt
@@ -11,7 +12,7 @@ import Mathlib.Tactic.Linarith
 import Mathlib.Tactic.Positivity
 
 namespace Dassh.Props.C12
-open Dassh.Gen.C12
+open Dassh.Gen.C12 Dassh.Model.FlowSplit
 
 variable {K : Type} [Field K] [LinearOrder K] [IsStrictOrderedRing K]
 
@@ -42,11 +43,6 @@ theorem c12_positive_const (Ab na0 na1 na2 r1 r3 : K) (hA : 0 < Ab) (h0 : 0 < na
 
 Given the three per-type loss terms `t_i > 0` evaluated at the previous iterate,
 `x2 = 1 / (s1 + s0 √(t1/t0) + s2 √(t1/t2))`, `x1 = √(t1/t0) x2`, `x3 = √(t1/t2) x2`. -/
-
-/-- hand model of the update, `q0 = √(t1/t0)`, `q2 = √(t1/t2)` -/
-def iterStep (s0 s1 s2 q0 q2 : K) : K × K × K :=
-  let x2 := 1 / (s1 + s0 * q0 + s2 * q2)
-  (q0 * x2, x2, q2 * x2)
 
 /-- every iterate (hence the returned triple) conserves mass: `Σ s_i x_i = 1` -/
 theorem c12_mass_iter (s0 s1 s2 q0 q2 : K) (hd : s1 + s0 * q0 + s2 * q2 ≠ 0) :
